@@ -283,6 +283,72 @@ def rule_segments(chk, db, cfgname):
                                   cfg=cfgname)
 
 
+def rule_every_ring(chk, db, cfgname):
+    chk.rule('C12.2d', 'manifold::Offset offsets every input ring: the OffsetContour call in the per-ring loop is '
+             'controlled by nothing but the loop itself (a ring skipped before it - e.g. a hole under an inset - '
+             'leaves its boundary out of the result)')
+    f = [f for f in db.fn('manifold::Offset') if f.get('blocks') and len(f['params']) == 5][0]
+    g = C.Cfg(f)
+    loops = g.loops()
+    n = 0
+    for b in f['blocks']:
+        for e in b['ev']:
+            if e.get('k') == 'call' and T.short(e.get('fn', '')) == 'OffsetContour':
+                n += 1
+                body = None
+                head = None
+                for h, blocks in loops.items():
+                    if b['id'] in blocks and (body is None or len(blocks) < len(body)):
+                        body, head = blocks, h
+                extra = []
+                if body is not None:
+                    work, seen = [b['id']], set()
+                    while work:
+                        y = work.pop()
+                        for d, k in g.control_deps(y):
+                            if (d, k) in seen or d not in body:
+                                continue
+                            seen.add((d, k))
+                            work.append(d)
+                            cond, _ = C.branch_cond(g.blocks[d])
+                            if d != head and cond is not None and '__begin' not in T.pstr(cond):
+                                extra.append(T.pstr(cond)[:60])
+                ok = body is not None and not extra
+                chk.obligation(ok, {'function': f['name'], 'line': e.get('ln'),
+                                    'OffsetContour in the ring loop is conditional on': extra or 'nothing'})
+                if not ok:
+                    chk.violation('C12.2d', f, 'ring skipped under %s' % (extra[:1] or ['?'])[0],
+                                  'some input rings are not offset (%s): the result lacks their offset boundary, so it '
+                                  'is not the set of points within/farther than delta of the region' % '; '.join(extra),
+                                  line=e.get('ln'), cfg=cfgname)
+    chk.count('c12.2d.offsetcontour_calls', n)
+
+
+def rule_decompose_input(chk, db, cfgname):
+    chk.rule('C12.3', 'CrossSection::Decompose hands all of its own contours (GetPaths()->paths_) to '
+             'DecomposeByContainment: a pre-filtered or otherwise derived contour set cannot partition the whole')
+    n = 0
+    for f in db.functions.values():
+        if not f.get('blocks') or f['name'] != 'manifold::CrossSection::Decompose':
+            continue
+        for b in f['blocks']:
+            for e in b['ev']:
+                if e.get('k') == 'call' and T.short(e.get('fn', '')) == 'DecomposeByContainment':
+                    n += 1
+                    r = c11.Resolver(db, f, c11.load_table())
+                    cls = sorted(set(r.classify(e['args'][0])))
+                    ok = cls == [('regular-copy', 'paths_ of a CrossSection')]
+                    chk.obligation(ok, {'function': f['name'], 'line': e.get('ln'), 'argument': T.pstr(e['args'][0])[:40],
+                                        'resolves to': ['%s: %s' % c for c in cls]})
+                    if not ok:
+                        chk.violation('C12.3', f, 'Decompose input %s' % T.pstr(e['args'][0])[:30],
+                                      'DecomposeByContainment receives %s instead of the section\'s own paths_: '
+                                      'contours missing from its input are missing from every component, so the '
+                                      'component areas no longer sum to the whole' % ['%s: %s' % c for c in cls],
+                                      line=e.get('ln'), cfg=cfgname)
+    chk.count('c12.3.decompose_calls', n)
+
+
 def main(chk, tier):
     import db as D
     configs = ['seq'] if tier == 'quick' else ['seq', 'par']
@@ -295,6 +361,8 @@ def main(chk, tier):
         rule_order(chk, db, cfgname)
         c11.rule_offset(chk, db, cfgname, 'C12.2')
         rule_segments(chk, db, cfgname)
+        rule_every_ring(chk, db, cfgname)
+        rule_decompose_input(chk, db, cfgname)
     n = len(configs)
     chk.floor('c12.1.returns', 6 * n)
     chk.floor('c12.1.appends', 7 * n)
@@ -302,6 +370,8 @@ def main(chk, tier):
     chk.floor('c12.2.offset_returns', 3 * n)
     chk.floor('c12.2b.offsetcontour_calls', n)
     chk.floor('c12.2c.guards', n)
+    chk.floor('c12.2d.offsetcontour_calls', n)
+    chk.floor('c12.3.decompose_calls', n)
     return chk.finish(
         'Provenance analysis of the four vertex/ring-selecting helpers (what they return is built only from copies '
         'of input elements, SimplifyRing in input order) and a structural check of Offset\'s returns and segment '
